@@ -28,6 +28,85 @@ var foreignStoreExceptions = map[string]string{
 	"(*app.Haqq).prepForZeroHeightGenesis":             "zero-height export resets staking records (export only, not consensus)",
 }
 
+// exceptionStoreModule: for exceptions whose key arrives as a parameter, the module store the wiring must hand in
+var exceptionStoreModule = map[string]string{
+	"app/upgrades/v1.8.0.fixUCDAOTotalBalance": "ucdao",
+}
+
+// traceStoreKeyConst follows a store-key value back through parameters, closure bindings and static callers to
+// the constant(s) used to index the app's keys map.
+func traceStoreKeyConst(P *Prog, fn *ssa.Function, v ssa.Value, depth int) []string {
+	out := map[string]bool{}
+	var rec func(fn *ssa.Function, v ssa.Value, d int)
+	rec = func(fn *ssa.Function, v ssa.Value, d int) {
+		if d < 0 || v == nil {
+			out["?"] = true
+			return
+		}
+		switch x := stripValue(v).(type) {
+		case *ssa.Lookup:
+			if s, ok := constString(x.Index); ok {
+				out[s] = true
+				return
+			}
+			out["?"] = true
+		case *ssa.Parameter:
+			idx := -1
+			for i, p := range fn.Params {
+				if p == x {
+					idx = i
+				}
+			}
+			n := 0
+			for _, caller := range P.Funcs {
+				eachCall(caller, func(ci CallInfo) {
+					if ci.Static == fn && idx >= 0 && idx < len(ci.Instr.Common().Args) {
+						n++
+						rec(caller, ci.Instr.Common().Args[idx], d-1)
+					}
+				})
+			}
+			if n == 0 {
+				out["?"] = true
+			}
+		case *ssa.FreeVar:
+			if b := freeVarBinding(x); b != nil && fn.Parent() != nil {
+				rec(fn.Parent(), b, d-1)
+				return
+			}
+			out["?"] = true
+		case *ssa.MakeInterface:
+			rec(fn, x.X, d)
+		case *ssa.UnOp:
+			if al, ok := x.X.(*ssa.Alloc); ok {
+				for _, st := range storesInto(al) {
+					rec(fn, st.Val, d-1)
+				}
+				return
+			}
+			// variable captured by reference: the cell is an Alloc of the parent
+			if fv, ok := x.X.(*ssa.FreeVar); ok && fn.Parent() != nil {
+				if al, ok := freeVarBinding(fv).(*ssa.Alloc); ok {
+					for _, st := range storesInto(al) {
+						rec(fn.Parent(), st.Val, d-1)
+					}
+					return
+				}
+			}
+			out["?"] = true
+		default:
+			out["?"] = true
+		}
+	}
+	rec(fn, v, depth)
+	var res []string
+	for k := range out {
+		res = append(res, k)
+	}
+	sort.Strings(res)
+	return res
+}
+
 func runC15(r *Run) {
 	P := r.P
 	r.Rule("R1", "OWN.store-ownership: each KVStore/TransientStore/GetKVStore call's key is (a) a StoreKey field of a Haqq keeper whose NewHaqq wiring is keys[<own module>.StoreKey] / tkeys[<own module>.TransientKey], or (b) a parameter of a store-migration function, or (c) a tabled exception")
@@ -190,6 +269,13 @@ func runC15(r *Run) {
 				return
 			}
 			if why, ok := foreignStoreExceptions[owner]; ok {
+				// the reason names whose store it is: when the key is a parameter, resolve what the wiring hands in
+				if want, ok := exceptionStoreModule[owner]; ok {
+					got := traceStoreKeyConst(P, fn, keyArg, 5)
+					r.Check(len(got) == 1 && got[0] == want, "R1", inst, where, "tabled exception: "+why+" (wiring hands in keys["+want+"])",
+						fmt.Sprintf("the tabled upgrade repair is handed store key(s) %v by the app wiring, not only the %q store it is tabled for: it would rewrite another module's records", got, want))
+					return
+				}
 				r.OK("R1", inst, where, "tabled exception: "+why)
 				return
 			}
